@@ -113,10 +113,10 @@ theorem wstep_core {s s' : QState} {c : Clock} (h : wstep s c = some s') : WCore
       cases h; exact .pop e t hr (by simp [holding, hpc]) rfl (by simp [holding]) rfl rfl rfl rfl
   · -- shutHolding
     rename_i e n hpc
-    split at h <;>
-      (cases h
-       exact .consume e (by simp [holding, hpc]) (by simp [holding]) rfl (by simp [delivered_consumeObs])
-         (by simp [displaced_consumeObs]) rfl rfl rfl)
+    cases h
+    refine .consume e (by simp [holding, hpc]) ?_ rfl (by simp [delivered_consumeObs])
+         (by simp [displaced_consumeObs]) rfl rfl rfl
+    dsimp only; split <;> simp [holding]
   · -- shutFlush
     rename_i hpc
     cases h
@@ -182,6 +182,105 @@ theorem other_core {s s' : QState} {ev : Ev} (h : step s ev = some s')
     simp only [step] at h
     split at h <;> cases h
     simp [core, delivered, displaced]
+
+
+/-! ### What a step appends to the history -/
+
+def Obs.isNextOrReport : Obs → Bool
+  | .next _ _ => true
+  | .report => true
+  | _ => false
+
+theorem completed_not_next (l : List Nat) (b : Bool) : ∀ o ∈ l.map (Obs.completed · b), o.isNextOrReport = false := by
+  intro o ho
+  obtain ⟨i, _, rfl⟩ := List.mem_map.mp ho
+  rfl
+
+/-- A step either hands the held entry to the stream (appending `consumeObs`) or appends
+observations that are neither `next` nor `report`. Static configuration never changes. -/
+theorem step_log {s s' : QState} {ev : Ev} (h : step s ev = some s') :
+    ((∃ c e, ev = .w c ∧ holding s.wpc = [e] ∧ s'.log = s.log ++ consumeObs s c e) ∨
+     (∃ added, s'.log = s.log ++ added ∧ ∀ o ∈ added, o.isNextOrReport = false)) ∧
+    s'.res = s.res ∧ s'.noSubscriber = s.noSubscriber ∧ s'.cap = s.cap := by
+  cases ev with
+  | push p =>
+    obtain ⟨hpc, _, _, hcap, _⟩ := push_core h
+    simp only [step] at h
+    split at h
+    · cases h
+    · split at h <;> cases h
+      · exact ⟨.inr ⟨[], by simp, by simp⟩, rfl, rfl, rfl⟩
+      · exact ⟨.inr ⟨[_], rfl, by simp [Obs.isNextOrReport]⟩, rfl, rfl, rfl⟩
+  | unpark p =>
+    simp only [step] at h; split at h <;> cases h
+    exact ⟨.inr ⟨[], by simp, by simp⟩, rfl, rfl, rfl⟩
+  | flushSend =>
+    simp only [step] at h
+    split at h <;> cases h
+    · exact ⟨.inr ⟨[_], rfl, by simp [Obs.isNextOrReport]⟩, rfl, rfl, rfl⟩
+    · exact ⟨.inr ⟨[], by simp, by simp⟩, rfl, rfl, rfl⟩
+  | flushUnpark i =>
+    simp only [step] at h; split at h <;> cases h
+    exact ⟨.inr ⟨[], by simp, by simp⟩, rfl, rfl, rfl⟩
+  | clone =>
+    simp only [step] at h; split at h <;> cases h
+    exact ⟨.inr ⟨[], by simp, by simp⟩, rfl, rfl, rfl⟩
+  | dropHandle =>
+    simp only [step] at h; split at h <;> cases h
+    exact ⟨.inr ⟨[], by simp, by simp⟩, rfl, rfl, rfl⟩
+  | forget =>
+    simp only [step] at h; split at h <;> cases h
+    exact ⟨.inr ⟨[], by simp, by simp⟩, rfl, rfl, rfl⟩
+  | dropJoinBegin =>
+    simp only [step] at h; split at h <;> cases h
+    exact ⟨.inr ⟨[], by simp, by simp⟩, rfl, rfl, rfl⟩
+  | dropJoinUnpark =>
+    simp only [step] at h; split at h <;> cases h
+    exact ⟨.inr ⟨[], by simp, by simp⟩, rfl, rfl, rfl⟩
+  | dropJoinEnd =>
+    simp only [step] at h; split at h <;> cases h
+    exact ⟨.inr ⟨[_], rfl, by simp [Obs.isNextOrReport]⟩, rfl, rfl, rfl⟩
+  | w c =>
+    simp only [step] at h
+    unfold wstep at h
+    split at h
+    · split at h <;> cases h <;> exact ⟨.inr ⟨[], by simp, by simp⟩, rfl, rfl, rfl⟩
+    · rename_i e n hpc
+      cases h
+      exact ⟨.inl ⟨c, e, rfl, by simp [holding, hpc], rfl⟩, rfl, rfl, rfl⟩
+    · cases h
+      refine ⟨.inr ⟨_, by rw [List.append_assoc], ?_⟩, rfl, rfl, rfl⟩
+      intro o ho
+      rcases List.mem_append.mp ho with h1 | h1
+      · split at h1
+        · simp at h1; subst h1; rfl
+        · simp at h1
+      · exact completed_not_next _ _ o h1
+    · split at h
+      · cases h; exact ⟨.inr ⟨[], by simp, by simp⟩, rfl, rfl, rfl⟩
+      · split at h
+        · cases h; exact ⟨.inr ⟨[], by simp, by simp⟩, rfl, rfl, rfl⟩
+        · split at h <;> cases h <;> exact ⟨.inr ⟨[], by simp, by simp⟩, rfl, rfl, rfl⟩
+    · split at h
+      · cases h; exact ⟨.inr ⟨[], by simp, by simp⟩, rfl, rfl, rfl⟩
+      · split at h
+        · cases h; exact ⟨.inr ⟨[], by simp, by simp⟩, rfl, rfl, rfl⟩
+        · cases h
+    · split at h <;> cases h <;> exact ⟨.inr ⟨[], by simp, by simp⟩, rfl, rfl, rfl⟩
+    · cases h; exact ⟨.inr ⟨[_], rfl, by simp [Obs.isNextOrReport]⟩, rfl, rfl, rfl⟩
+    · split at h <;> cases h <;> exact ⟨.inr ⟨[], by simp, by simp⟩, rfl, rfl, rfl⟩
+    · split at h <;> cases h <;> exact ⟨.inr ⟨[], by simp, by simp⟩, rfl, rfl, rfl⟩
+    · split at h <;> cases h <;> exact ⟨.inr ⟨[], by simp, by simp⟩, rfl, rfl, rfl⟩
+    · rename_i e n hpc
+      cases h
+      exact ⟨.inl ⟨c, e, rfl, by simp [holding, hpc], rfl⟩, rfl, rfl, rfl⟩
+    · cases h
+      refine ⟨.inr ⟨_, by rw [List.append_assoc], ?_⟩, rfl, rfl, rfl⟩
+      intro o ho
+      rcases List.mem_append.mp ho with h1 | h1
+      · simp at h1; rcases h1 with rfl | rfl <;> rfl
+      · exact completed_not_next _ _ o h1
+    · cases h
 
 /-- induction principle: a predicate that holds initially and is preserved by every step holds in
 every reachable state -/
